@@ -43,6 +43,18 @@ def header(name: bytes, size: int, typ: bytes = b"0", *, visor: bool = True, off
     return bytes(b)
 
 
+def pax_records(records: list[tuple[str, str]]) -> bytes:
+    """POSIX.1-2001 extended header records: '<length> <key>=<value>\\n', the length counting itself."""
+    out = b""
+    for k, v in records:
+        body = f" {k}={v}\n".encode()
+        n = len(body) + 1
+        while len(str(n)) + len(body) != n:
+            n = len(str(n)) + len(body)
+        out += str(n).encode() + body
+    return out
+
+
 def build(rng, members: list[dict], *, data_order: str = "shuffle", align: int = PAGE, trailing: int = 0, gap_prob: float = 0.2,
           far: bool = False):
     """members: dicts with name(str), kind in file|dir|sym|empty|std (inline ustar/GNU member), data(bytes), longname(bool), prefix(bool).
@@ -72,6 +84,12 @@ def build(rng, members: list[dict], *, data_order: str = "shuffle", align: int =
                 pre.append(header(b"././@LongLink", len(ln), b"L", visor=m.get("visor_longlink", False), gnu=True))
                 pre.append(ln.ljust(-(-len(ln) // 512) * 512, b"\0"))
                 nb = nb[:100]
+        if m.get("pax"):
+            # a pax extended header in front of the member (records such as mtime, comment, size, path)
+            # a size record (value None) repeats the member's actual size
+            rec = pax_records([(k_, str(len(m.get("data", b""))) if v_ is None else v_) for k_, v_ in m["pax"]])
+            pre.append(header(b"PaxHeaders/" + nb[:80], len(rec), b"x", visor=m.get("visor_pax", False)))
+            pre.append(rec.ljust(-(-len(rec) // 512) * 512, b"\0"))
         for p in pre:
             hdrs.append(p)
         if m.get("typeflag") == b"\0" and nb.endswith(b"/"):
